@@ -265,7 +265,10 @@ class Body:
     def reachable_threaded(self, start=0, avoid_blocks=(), avoid_edges=()):
         """like reachable(), but tracks the constant value of merge-only bool locals along each path and follows
         only the matching edge of a switch on such a local. Returns the set of reachable blocks."""
-        bl = self._bool_locals()
+        # every bool local is tracked while its value is a known constant on the current path; an assignment from anything
+        # else (a call result, a comparison) forgets it.  (`a && b() && c()` merges `false` through the same local that
+        # receives c()'s result, so restricting the tracking to constant-only locals would lose the early-exit edges.)
+        bl = {i for i, t in enumerate(self.d["locals"]) if self.types[t]["s"] == "bool"}
         avoid_blocks = set(avoid_blocks)
         avoid_edges = set(avoid_edges)
         starts = [start] if isinstance(start, int) else list(start)
@@ -287,22 +290,26 @@ class Body:
                     l = stt[1][0]
                     if rv[0] == "use" and rv[1][0] == "k":
                         e[l] = 1 if rv[1][1].get("int") else 0
-                    elif rv[0] == "use":
+                    elif rv[0] == "use" and rv[1][0] in ("c", "m") and not rv[1][1][1]:
                         src = rv[1][1][0]
                         if src in e:
                             e[l] = e[src]
                         else:
                             e.pop(l, None)
-                    elif rv[0] == "un":
+                    elif rv[0] == "un" and rv[1] == "Not" and rv[2][0] in ("c", "m"):
                         src = rv[2][1][0]
                         if src in e:
                             e[l] = 1 - e[src]
                         else:
                             e.pop(l, None)
+                    else:
+                        e.pop(l, None)
                 elif stt[0] == "sd" and stt[1] in e:
                     pass
             t = self.blocks[b]["t"]
             nxt = list(self.succ(b))
+            if t[0] == "call" and t[3] is not None and not t[3][1] and t[3][0] in e:
+                e.pop(t[3][0], None)
             if t[0] == "switch" and t[1][0] in ("c", "m") and not t[1][1][1] and t[1][1][0] in e:
                 v = e[t[1][1][0]]
                 tgt = None
